@@ -482,7 +482,12 @@ func TestC31(t *testing.T) {
 		mergeJSONInto(want, j, false, &st)
 		want.Normalize()
 
+		// one tree in four is built the way a caller who reuses values builds it: equal scalar leaves of one
+		// Go type share a single variable; the library must not write through such a pointer
 		root := model.Build(e)
+		if rapid.IntRange(0, 3).Draw(rt, "sharedleaves") == 0 {
+			root = model.BuildShared(e)
+		}
 		uerr, panicked := safeCall(func() error { return v.Unmarshal(doc, root, opts...) })
 
 		nt := st.sharedEntryLeafDiffers > 0
